@@ -83,6 +83,20 @@ theorem callOf_hqStart {s : S} {h pl : Nat} {a : List AddrOutcome} {c0 : LOp}
       exact ⟨hlt, hb.1.1, rfl⟩
   · cases hc
 
+theorem callOf_hqsStart {s : S} {h pl hl : Nat} {a : List AddrOutcome} {c0 : LOp}
+    (hc : callOf s (.hqsStart h a pl hl) = some c0) :
+    h < MAXOBJ ∧ look s.http h = none ∧ c0 = .https a (headLen pl) (freshFd s.w) hl := by
+  simp only [callOf] at hc
+  split at hc
+  · rename_i hlt
+    split at hc
+    · cases hc
+    · rename_i hb
+      simp only [Bool.or_eq_true, not_or, Bool.not_eq_true, Option.isSome_eq_false_iff, Option.isNone_iff_eq_none] at hb
+      cases hc
+      exact ⟨hlt, hb.1.1.1, rfl⟩
+  · cases hc
+
 theorem callOf_nbrWait {s : S} {h len : Nat} {c0 : LOp} (hc : callOf s (.nbrWait h len) = some c0) :
     ∃ rid r, obj s.nbr h = some rid ∧ s.w.readers.find? (·.id == rid) = some r ∧ r.readCookie = none ∧
       r.immediate = false ∧ (len > 0 → slotBusy s.w.ev r.fd false = false) ∧ c0 = .nbrWait rid len := by
@@ -298,7 +312,18 @@ theorem hinv_del {s s' : S} (H : HInv s) (k0 : K) (h c : Nat)
 theorem add_fresh {t t' : Tables} {c0 : LOp} {rc : Rc} {o : Option Nat} (hev : Ev t c0 rc o t') :
     ∀ k c, addOf c0 o = some (k, c) → ¬ Vis t k c := by
   intro k c ha hv
-  cases hev <;> simp only [addOf, Option.some.injEq, Prod.mk.injEq, reduceCtorEq] at ha
+  cases hev
+  case http =>
+    rename_i a0 l0 s0 x0 hd0 c1 ho0 k0 hk0 hfc0 hfx hc0
+    rcases hc0 with h1 | ⟨hl, h1⟩
+    all_goals
+      rw [h1] at ha
+      simp only [addOf, Option.some.injEq, Prod.mk.injEq] at ha
+      obtain ⟨rfl, rfl⟩ := ha
+      simp only [Vis, List.mem_map] at hv
+      obtain ⟨a, ha, he⟩ := hv
+      exact hfx a ha he
+  all_goals simp only [addOf, Option.some.injEq, Prod.mk.injEq, reduceCtorEq] at ha
   all_goals (obtain ⟨rfl, rfl⟩ := ha; simp only [Vis, List.mem_map] at hv)
   case read hf => obtain ⟨⟨a, ha, he⟩, _⟩ := hv; exact hf a ha he
   case write hf => obtain ⟨⟨a, ha, he⟩, _⟩ := hv; exact hf a ha he
@@ -306,7 +331,6 @@ theorem add_fresh {t t' : Tables} {c0 : LOp} {rc : Rc} {o : Option Nat} (hev : E
   case connect hf => obtain ⟨⟨a, ha, he⟩, _⟩ := hv; exact hf a ha he
   case nbrInit hf => obtain ⟨a, ha, he⟩ := hv; exact hf a ha he
   case nbwInit hf => obtain ⟨a, ha, he⟩ := hv; exact hf a ha he
-  case http hfc hfx => obtain ⟨a, ha, he⟩ := hv; exact hfx a ha he
 
 theorem callOf_rel {s : S} {k : RelKind} {h : Nat} {c0 : LOp} (hc : callOf s (.rel k h) = some c0) :
     ∃ c, obj (relTab s k) h = some c ∧ c0 = relCall k c := by
@@ -356,6 +380,11 @@ theorem hinv_book (s : S) (op : UOp) (c0 : LOp) (ok : Bool) (H : HInv s) (hI : I
     cases o
     · exact hinv_same H (fun k => by cases k <;> rfl) hd
     · exact hinv_add H .http h _ (fun k => by cases k <;> rfl) hd hl hlt (hfr _ _ rfl)
+  | hqsStart h a pl hl =>
+    obtain ⟨hlt, hl', rfl⟩ := callOf_hqsStart hc
+    cases o
+    · exact hinv_same H (fun k => by cases k <;> rfl) hd
+    · exact hinv_add H .http h _ (fun k => by cases k <;> rfl) hd hl' hlt (hfr _ _ rfl)
   | nbrWait h len =>
     obtain ⟨rid, r, _, _, _, _, _, rfl⟩ := callOf_nbrWait hc
     exact hinv_same H (fun k => by cases k <;> rfl) hd
